@@ -330,11 +330,20 @@ def Forest.resourceFree : Forest → Bool
 termination_by structural f => f
 end
 
+/-- keys of an association list are pairwise distinct (true of every `IndexMap`) -/
+def keysDistinct {κ β : Type} [BEq κ] : List (κ × β) → Bool
+  | [] => true
+  | (k, _) :: r => !(r.any (fun e => e.1 == k)) && keysDistinct r
+
+def ModuleType.keysDistinct (m : ModuleType) : Bool :=
+  Wac.keysDistinct m.imports && Wac.keysDistinct m.exports
+
 mutual
 /-- names of every forest are pairwise distinct (true of anything built from an `IndexMap`);
 tuples are exempt (their items are unnamed) -/
 def Tree.namesDistinct : Tree → Bool
-  | .none | .prim _ | .flags _ | .enum _ | .module _ | .own _ | .borrow _ | .resource _ => true
+  | .module m => m.keysDistinct
+  | .none | .prim _ | .flags _ | .enum _ | .own _ | .borrow _ | .resource _ => true
   | .tuple f => f.subtreesDistinct
   | .variant f | .record f | .instance f => f.namesDistinct
   | .list t | .fixedList t _ | .option t | .stream t | .future t | .value t | .type t => t.namesDistinct
@@ -393,6 +402,25 @@ def unfoldUnnamed (f : ValueType → Option Tree) : List ValueType → Option Fo
     | some t, some fr => some (.cons [] t fr)
     | _, _ => none
 
+/-- one defined type, given the unfolding `u` of the value types it mentions; an alias unfolds
+to what it aliases -/
+def unfoldDefined (u : ValueType → Option Tree) : DefinedType → Option Tree
+  | .alias a => u a
+  | .tuple ts => (unfoldUnnamed u ts).map .tuple
+  | .list a => (u a).map .list
+  | .fixedSizeList a n => (u a).map (.fixedList · n)
+  | .option a => (u a).map .option
+  | .result ok err =>
+    match unfoldOpt u ok, unfoldOpt u err with
+    | some a, some b => some (.result a b)
+    | _, _ => none
+  | .variant cs => (unfoldNamedOpt u cs).map .variant
+  | .record fs => (unfoldNamed u fs).map .record
+  | .flags ns => some (.flags ns)
+  | .enum ns => some (.enum ns)
+  | .stream a => (unfoldOpt u a).map .stream
+  | .future a => (unfoldOpt u a).map .future
+
 /-- value type → tree; aliases disappear -/
 def Types.unfoldVT (t : Types) : Nat → ValueType → Option Tree
   | 0, _ => none
@@ -402,21 +430,7 @@ def Types.unfoldVT (t : Types) : Nat → ValueType → Option Tree
   | fuel + 1, .defined d =>
     match t.defined[d]? with
     | none => none
-    | some (.alias a) => t.unfoldVT fuel a
-    | some (.tuple ts) => (unfoldUnnamed (t.unfoldVT fuel) ts).map .tuple
-    | some (.list a) => (t.unfoldVT fuel a).map .list
-    | some (.fixedSizeList a n) => (t.unfoldVT fuel a).map (.fixedList · n)
-    | some (.option a) => (t.unfoldVT fuel a).map .option
-    | some (.result ok err) =>
-      match unfoldOpt (t.unfoldVT fuel) ok, unfoldOpt (t.unfoldVT fuel) err with
-      | some a, some b => some (.result a b)
-      | _, _ => none
-    | some (.variant cs) => (unfoldNamedOpt (t.unfoldVT fuel) cs).map .variant
-    | some (.record fs) => (unfoldNamed (t.unfoldVT fuel) fs).map .record
-    | some (.flags ns) => some (.flags ns)
-    | some (.enum ns) => some (.enum ns)
-    | some (.stream a) => (unfoldOpt (t.unfoldVT fuel) a).map .stream
-    | some (.future a) => (unfoldOpt (t.unfoldVT fuel) a).map .future
+    | some x => unfoldDefined (t.unfoldVT fuel) x
 
 /-- function type id → `Tree.func` -/
 def Types.unfoldFunc (t : Types) (fuel : Nat) (f : Nat) : Option Tree :=
